@@ -29,8 +29,8 @@ theorem encodeRegs_length (rs : List FRegion) : (encodeRegs rs).length = 4 * rs.
   | nil => rfl
   | cons r rs ih => simp only [encodeRegs, List.flatMap_cons] at *; simp [ih]; omega
 
-theorem encodeRegionSection_length (d : Desc) : (encodeRegionSection d).length = 4 + 4 * d.regs.length := by
-  simp [encodeRegionSection, encodeRegs_length]; omega
+theorem encodeRegionTail_length (d : Desc) : (encodeRegionTail d).length = 2 + 4 * d.regs.length := by
+  simp [encodeRegionTail, encodeRegs_length]
 
 /-- rewriting Base of slot 0 and Limit of slot 1 changes exactly bytes 0,1 and 6,7 of the table -/
 theorem encodeRegs_set01 (r0 r1 : FRegion) (rest : List FRegion) (B L : Nat) (p : Nat)
@@ -70,28 +70,26 @@ structure Desc.Geom (d : Desc) : Prop where
   regionIn : d.regionStart + regionSectionSize ≤ descLen
   masterIn : d.masterStart + masterSize ≤ descLen
 
-theorem encodeRegionSection_get (d : Desc) (q : Nat) (hq : 4 ≤ q) :
-    (encodeRegionSection d)[q]? = (encodeRegs d.regs)[q - 4]? := by
-  simp only [encodeRegionSection, List.append_assoc, List.getElem?_append, leN_length, List.length_cons,
-    List.length_nil]
+theorem encodeRegionTail_get (d : Desc) (q : Nat) (hq : 2 ≤ q) :
+    (encodeRegionTail d)[q]? = (encodeRegs d.regs)[q - 2]? := by
+  simp only [encodeRegionTail, List.getElem?_append, leN_length]
   repeat' split
   all_goals first | rfl | omega | (congr 1; omega)
 
-theorem encodeRegionSection_get_lt (d : Desc) (rs : List FRegion) (q : Nat) (hq : q < 4) :
-    (encodeRegionSection { d with regs := rs })[q]? = (encodeRegionSection d)[q]? := by
-  simp only [encodeRegionSection, List.append_assoc, List.getElem?_append, leN_length, List.length_cons,
-    List.length_nil]
+theorem encodeRegionTail_get_lt (d : Desc) (rs : List FRegion) (q : Nat) (hq : q < 2) :
+    (encodeRegionTail { d with regs := rs })[q]? = (encodeRegionTail d)[q]? := by
+  simp only [encodeRegionTail, List.getElem?_append, leN_length]
   repeat' split
   all_goals first | rfl | omega | (congr 1; omega)
 
 theorem asmDesc_length (d : Desc) (g : d.Geom) : (asmDesc d).length = descLen := by
-  have hs : (encodeRegionSection d).length = 64 := by
-    rw [encodeRegionSection_length, g.regsLen]; rfl
+  have hs : (encodeRegionTail d).length = 62 := by
+    rw [encodeRegionTail_length, g.regsLen]; rfl
   have g1 := g.bufLen; have g2 := g.dmapLen; have g3 := g.masterLen
   have g4 := g.mapIn; have g5 := g.regionIn; have g6 := g.masterIn
   simp only [descLen, mapSize, masterSize, regionSectionSize] at *
   have hb1 : (splice d.buf d.mapStart d.dmap).length = 4096 := by rw [splice_length] <;> omega
-  have hb2 : (splice (splice d.buf d.mapStart d.dmap) d.regionStart (encodeRegionSection d)).length = 4096 := by
+  have hb2 : (splice (splice d.buf d.mapStart d.dmap) (d.regionStart + 2) (encodeRegionTail d)).length = 4096 := by
     rw [splice_length] <;> omega
   unfold asmDesc
   rw [splice_length] <;> omega
@@ -106,29 +104,29 @@ theorem asmDesc_diff (d : Desc) (g : d.Geom) (B L : Nat) (p : Nat)
   have g4 := g.mapIn; have g5 := g.regionIn; have g6 := g.masterIn
   have hlen : rest.length = 13 := by have := g.regsLen; rw [hr] at this; simp [nRegions] at this; omega
   simp only [descLen, mapSize, masterSize, regionSectionSize] at *
-  have hs : (encodeRegionSection d).length = 64 := by
-    rw [encodeRegionSection_length, hr]; simp [hlen]
-  have hs' : (encodeRegionSection { d with regs := { r0 with base := B } :: { r1 with limit := L } :: rest }).length = 64 := by
-    rw [encodeRegionSection_length]; simp [hlen]
+  have hs : (encodeRegionTail d).length = 62 := by
+    rw [encodeRegionTail_length, hr]; simp [hlen]
+  have hs' : (encodeRegionTail { d with regs := { r0 with base := B } :: { r1 with limit := L } :: rest }).length = 62 := by
+    rw [encodeRegionTail_length]; simp [hlen]
   have hb1 : (splice d.buf d.mapStart d.dmap).length = 4096 := by rw [splice_length] <;> omega
-  have hb2 : (splice (splice d.buf d.mapStart d.dmap) d.regionStart (encodeRegionSection d)).length = 4096 := by
+  have hb2 : (splice (splice d.buf d.mapStart d.dmap) (d.regionStart + 2) (encodeRegionTail d)).length = 4096 := by
     rw [splice_length] <;> omega
-  have hb2' : (splice (splice d.buf d.mapStart d.dmap) d.regionStart
-      (encodeRegionSection { d with regs := { r0 with base := B } :: { r1 with limit := L } :: rest })).length = 4096 := by
+  have hb2' : (splice (splice d.buf d.mapStart d.dmap) (d.regionStart + 2)
+      (encodeRegionTail { d with regs := { r0 with base := B } :: { r1 with limit := L } :: rest })).length = 4096 := by
     rw [splice_length] <;> omega
-  -- the section bytes agree away from 4,5,10,11
-  have hsec : ∀ q, q ≠ 4 → q ≠ 5 → q ≠ 10 → q ≠ 11 →
-      (encodeRegionSection { d with regs := { r0 with base := B } :: { r1 with limit := L } :: rest })[q]? =
-      (encodeRegionSection d)[q]? := by
+  -- the written bytes agree away from section bytes 4,5,10,11 (= tail bytes 2,3,8,9)
+  have hsec : ∀ q, q ≠ 2 → q ≠ 3 → q ≠ 8 → q ≠ 9 →
+      (encodeRegionTail { d with regs := { r0 with base := B } :: { r1 with limit := L } :: rest })[q]? =
+      (encodeRegionTail d)[q]? := by
     intro q h4 h5 h10 h11
-    by_cases hq : q < 4
-    · exact encodeRegionSection_get_lt d _ q hq
-    · rw [encodeRegionSection_get _ q (by omega), encodeRegionSection_get _ q (by omega), hr]
-      exact encodeRegs_set01 r0 r1 rest B L (q - 4) (by omega) (by omega)
-  generalize hsec'e : encodeRegionSection { d with regs := { r0 with base := B } :: { r1 with limit := L } :: rest } = sec' at *
-  generalize hsece : encodeRegionSection d = sec at *
+    by_cases hq : q < 2
+    · exact encodeRegionTail_get_lt d _ q hq
+    · rw [encodeRegionTail_get _ q (by omega), encodeRegionTail_get _ q (by omega), hr]
+      exact encodeRegs_set01 r0 r1 rest B L (q - 2) (by omega) (by omega)
+  generalize hsec'e : encodeRegionTail { d with regs := { r0 with base := B } :: { r1 with limit := L } :: rest } = sec' at *
+  generalize hsece : encodeRegionTail d = sec at *
   generalize hb1e : splice d.buf d.mapStart d.dmap = b1 at *
-  have key : (splice b1 d.regionStart sec')[p]? = (splice b1 d.regionStart sec)[p]? := by
+  have key : (splice b1 (d.regionStart + 2) sec')[p]? = (splice b1 (d.regionStart + 2) sec)[p]? := by
     rw [splice_getElem? b1 _ sec' _ (by omega), splice_getElem? b1 _ sec _ (by omega), hs, hs']
     split
     · rfl
@@ -137,8 +135,8 @@ theorem asmDesc_diff (d : Desc) (g : d.Geom) (B L : Nat) (p : Nat)
       · rfl
   unfold asmDesc
   simp only [hr, setRegs01, hsec'e, hsece, hb1e]
-  generalize hb2e : splice b1 d.regionStart sec = b2 at *
-  generalize hb2e' : splice b1 d.regionStart sec' = b2' at *
+  generalize hb2e : splice b1 (d.regionStart + 2) sec = b2 at *
+  generalize hb2e' : splice b1 (d.regionStart + 2) sec' = b2' at *
   rw [splice_getElem? b2' _ _ _ (by omega), splice_getElem? b2 _ _ _ (by omega), key]
 
 
@@ -154,45 +152,45 @@ theorem asmDesc_fields (d : Desc) (g : d.Geom) (B L : Nat)
   have g4 := g.mapIn; have g5 := g.regionIn; have g6 := g.masterIn
   have hlen : rest.length = 13 := by have := g.regsLen; rw [hr] at this; simp [nRegions] at this; omega
   simp only [descLen, mapSize, masterSize, regionSectionSize] at *
-  have hs' : (encodeRegionSection { d with regs := { r0 with base := B } :: { r1 with limit := L } :: rest }).length = 64 := by
-    rw [encodeRegionSection_length]; simp [hlen]
+  have hs' : (encodeRegionTail { d with regs := { r0 with base := B } :: { r1 with limit := L } :: rest }).length = 62 := by
+    rw [encodeRegionTail_length]; simp [hlen]
   have hb1 : (splice d.buf d.mapStart d.dmap).length = 4096 := by rw [splice_length] <;> omega
-  have hb2' : (splice (splice d.buf d.mapStart d.dmap) d.regionStart
-      (encodeRegionSection { d with regs := { r0 with base := B } :: { r1 with limit := L } :: rest })).length = 4096 := by
+  have hb2' : (splice (splice d.buf d.mapStart d.dmap) (d.regionStart + 2)
+      (encodeRegionTail { d with regs := { r0 with base := B } :: { r1 with limit := L } :: rest })).length = 4096 := by
     rw [splice_length] <;> omega
-  have hsec1 : (encodeRegionSection { d with regs := { r0 with base := B } :: { r1 with limit := L } :: rest })[4 + k]? =
+  have hsec1 : (encodeRegionTail { d with regs := { r0 with base := B } :: { r1 with limit := L } :: rest })[2 + k]? =
       (leN 2 B)[k]? := by
-    rw [encodeRegionSection_get _ _ (by omega)]
+    rw [encodeRegionTail_get _ _ (by omega)]
     have := encodeRegs_set01_base r0 r1 rest B L k hk
     simpa using this
-  have hsec2 : (encodeRegionSection { d with regs := { r0 with base := B } :: { r1 with limit := L } :: rest })[10 + k]? =
+  have hsec2 : (encodeRegionTail { d with regs := { r0 with base := B } :: { r1 with limit := L } :: rest })[8 + k]? =
       (leN 2 L)[k]? := by
-    rw [encodeRegionSection_get _ _ (by omega)]
+    rw [encodeRegionTail_get _ _ (by omega)]
     have := encodeRegs_set01_limit r0 r1 rest B L k hk
-    rw [show 10 + k - 4 = 6 + k by omega]; exact this
-  generalize hsec'e : encodeRegionSection { d with regs := { r0 with base := B } :: { r1 with limit := L } :: rest } = sec' at *
+    rw [show 8 + k - 2 = 6 + k by omega]; exact this
+  generalize hsec'e : encodeRegionTail { d with regs := { r0 with base := B } :: { r1 with limit := L } :: rest } = sec' at *
   generalize hb1e : splice d.buf d.mapStart d.dmap = b1 at *
-  have key : ∀ q, q < 64 → (splice b1 d.regionStart sec')[d.regionStart + q]? = sec'[q]? := by
+  have key : ∀ q, q < 62 → (splice b1 (d.regionStart + 2) sec')[d.regionStart + 2 + q]? = sec'[q]? := by
     intro q hq
     rw [splice_getElem? b1 _ sec' _ (by omega), hs']
-    simp only [show ¬ d.regionStart + q < d.regionStart by omega, if_false,
-      show d.regionStart + q < d.regionStart + 64 by omega, if_true]
+    simp only [show ¬ d.regionStart + 2 + q < d.regionStart + 2 by omega, if_false,
+      show d.regionStart + 2 + q < d.regionStart + 2 + 62 by omega, if_true]
     congr 1; omega
   unfold asmDesc
   simp only [hr, setRegs01, hsec'e, hb1e]
-  generalize hb2e' : splice b1 d.regionStart sec' = b2' at *
+  generalize hb2e' : splice b1 (d.regionStart + 2) sec' = b2' at *
   constructor
   · rw [splice_getElem? b2' _ _ _ (by omega), g3]
-    have := key (4 + k) (by omega)
-    rw [← Nat.add_assoc] at this
+    have := key (2 + k) (by omega)
+    rw [show d.regionStart + 2 + (2 + k) = d.regionStart + 4 + k by omega] at this
     split
     · rw [this, hsec1]
     · split
       · omega
       · rw [this, hsec1]
   · rw [splice_getElem? b2' _ _ _ (by omega), g3]
-    have := key (10 + k) (by omega)
-    rw [← Nat.add_assoc] at this
+    have := key (8 + k) (by omega)
+    rw [show d.regionStart + 2 + (8 + k) = d.regionStart + 10 + k by omega] at this
     split
     · rw [this, hsec2]
     · split
